@@ -836,8 +836,8 @@ func main() {
 						Consts: map[string]string{"FIXES": fixes, "LEVEL": "8", "EMIT": `"no"`}},
 					{Name: "kick in two parts (locked section, then I/O), complete", Module: "Session", Cfg: "Session_kick.cfg",
 						Consts: map[string]string{"FIXES": fixes, "FAULTS": "{}", "CLIENT": "Client2", "VIEW": "VIEW view", "LEVEL": "99", "EMIT": `"no"`}},
-					{Name: "interleaved critical sections depth 10 (strict invariants)", Module: "Session", Cfg: "Session_split.cfg",
-						Consts: map[string]string{"FIXES": fixes, "FAULTS": "{}", "LEVEL": "10", "INV": strict}},
+					{Name: "interleaved critical sections depth 8 (strict invariants)", Module: "Session", Cfg: "Session_split.cfg",
+						Consts: map[string]string{"FIXES": fixes, "FAULTS": "{}", "LEVEL": "8", "INV": strict}},
 				})
 			}
 			return withTimeout(to, []fw.TLCJob{ // LEVEL 99 = complete state graph
@@ -876,7 +876,7 @@ func main() {
 			if env.Tier == "thorough" {
 				return map[string]int{"gen:transitions": 30000, "gen:cap": 12000, "gen:kick": 15000, "gen:simulate": 8000}[src]
 			}
-			return map[string]int{"gen:transitions": 2600, "gen:cap": 900, "gen:kick": 2500, "gen:simulate": 600}[src]
+			return map[string]int{"gen:transitions": 2600, "gen:cap": 900, "gen:kick": 2000, "gen:simulate": 600}[src]
 		},
 		ExtraBeh:    parBehaviours,
 		Drive:       drive,
